@@ -402,8 +402,14 @@ Proof.
          | |- EInv _ _ _ _ _ =>
              apply E_skip; [assumption | assumption | lia | first [left; assumption | right; assumption]]
          end.
-  all: assert (Ez : z = zlen ts) by lia; subst z.
-  all: rewrite ?H3, ?Z.max_r by lia; rewrite ?Hk in *.
+  (* after the loop t = n; ix_end[len(ix_end) - 1] is position n - 1 *)
+  all: match goal with
+       | Ha : zlen ?ts <= ?z, Hb : ?z <= zlen ?ts |- _ => assert (Ez : z = zlen ts) by lia; subst z
+       end.
+  all: repeat match goal with
+         | Hd : zlen ?d = Z.max 0 _ |- context [zlen ?d] => rewrite Hd
+         end.
+  all: rewrite ?Z.max_r by lia; rewrite ?Hk in *.
   all: f_equal; [f_equal; f_equal; apply S_final | f_equal; f_equal; f_equal; apply E_final].
   all: try assumption.
   all: match goal with
